@@ -109,13 +109,22 @@ impl VFile {
     #[verifier::external_body]
     pub fn read_to_string(&mut self, s: &mut String) -> (r: Result<usize, VxIoErr>) ensures final(self).fd == old(self).fd { unimplemented!() }
 }
+pub uninterp spec fn spec_bytes_of(s: Seq<char>) -> Seq<u8>;
 #[verifier::external_body]
-pub fn vx_as_bytes(s: &String) -> (r: &[u8]) { unimplemented!() }
+pub fn vx_as_bytes(s: &String) -> (r: &[u8]) ensures r@ == spec_bytes_of(s@) { unimplemented!() }
 #[verifier::external_body]
 pub fn vx_nl_bytes() -> (r: &'static [u8]) { unimplemented!() }
 '''
 
 TEMPLATE = common.HEAD + common.STR_SHIMS + common.TOKEN_TYPES + KERNEL + r'''
+impl VFile {
+    // Write::write_all of the here-string: what is written must be the word followed by one newline (C04), whatever the word ends in
+    #[verifier::external_body]
+    pub fn write_here_string(&mut self, b: &[u8], Ghost(word): Ghost<Seq<char>>) -> (r: Result<(), VxIoErr>)
+        requires b@ == spec_bytes_of(word.push('\n')) //@L C04.rsp.the_here_string_is_the_word_followed_by_one_newline
+        ensures final(self).fd == old(self).fd
+    { unimplemented!() }
+}
 //@TYPE Command
 //@TYPE CommandLine
 //@TYPE CommandResult
@@ -153,13 +162,23 @@ pub fn vx_reset_child_signals() { unimplemented!() }
 // libc::signal(SIGPIPE, SIG_IGN / SIG_DFL) around the here-string write: signal disposition, no descriptor effect
 // ghost: the SIGPIPE disposition of the shell (it survives fork and exec): a stage must start with the default action (C02: a writer whose
 // reader exits early ends by SIGPIPE), and the shell must have the default action back once the here-string is written
-pub ghost struct SigLog { pub ignored: bool }
+// ... and the dispositions of the keyboard signals SIGTSTP (ctrl-Z) and SIGQUIT: the shell itself ignores both (main.rs: assumed), an ignored
+// disposition survives fork and exec, so every stage -- an external program or a builtin run in a forked copy -- must have them reset first
+pub ghost struct SigLog { pub ignored: bool, pub tstp_ign: bool, pub quit_ign: bool }
 #[verifier::external_body]
-pub proof fn new_siglog() -> (tracked r: SigLog) ensures !r.ignored { unimplemented!() }
+pub proof fn new_siglog() -> (tracked r: SigLog) ensures !r.ignored, r.tstp_ign, r.quit_ign { unimplemented!() }
 #[verifier::external_body]
-pub fn vx_sigpipe(ignore: bool, Tracked(sg): Tracked<&mut SigLog>) ensures final(sg).ignored == ignore { unimplemented!() }
+pub fn vx_sigpipe(ignore: bool, Tracked(sg): Tracked<&mut SigLog>) ensures final(sg).ignored == ignore, final(sg).tstp_ign == old(sg).tstp_ign, final(sg).quit_ign == old(sg).quit_ign { unimplemented!() }
 #[verifier::external_body]
-pub fn vx_push_nl(s: &mut String) { s.push('\n') }
+pub fn vx_sigtstp_default(Tracked(sg): Tracked<&mut SigLog>) ensures !final(sg).tstp_ign, final(sg).ignored == old(sg).ignored, final(sg).quit_ign == old(sg).quit_ign { unimplemented!() }
+#[verifier::external_body]
+pub fn vx_sigquit_default(Tracked(sg): Tracked<&mut SigLog>) ensures !final(sg).quit_ign, final(sg).ignored == old(sg).ignored, final(sg).tstp_ign == old(sg).tstp_ign { unimplemented!() }
+// C02 / C07: a stage that is about to run (exec, or a builtin in the forked copy) reacts to ctrl-Z and ctrl-\ the default way
+pub proof fn chk_job_signals_default(sg: SigLog)
+    requires !sg.tstp_ign && !sg.quit_ign,   //@L C02+C07.rsp.a_stage_runs_with_the_default_action_for_the_stop_and_quit_keys
+{ }
+#[verifier::external_body]
+pub fn vx_push_nl(s: &mut String) ensures final(s)@ == old(s)@.push('\n') { s.push('\n') }
 #[verifier::external_body]
 pub fn vx_getpid(Tracked(k): Tracked<&mut Kernel>) -> (r: i32) ensures r as int == old(k).self_pid, *final(k) == *old(k) { unimplemented!() }
 #[verifier::external_body]
@@ -494,19 +513,21 @@ C = 'src/core.rs'
 RSP_RW = [
     Rw('libc::signal(libc::SIGPIPE, libc::SIG_IGN);', 'vx_sigpipe(true, Tracked(&mut sg));', required=False, rule='R8', why='signal disposition while the here-string is written: shim, no descriptor effect'),
     Rw('libc::signal(libc::SIGPIPE, libc::SIG_DFL);', 'vx_sigpipe(false, Tracked(&mut sg));', required=False, rule='R8'),
-    Rw(r'unsafe \{[^{}]*?libc::signal\([^{}]*?\}', 'vx_reset_child_signals();', regex=True, rule='R8', why='libc::signal(SIGTSTP/SIGQUIT, SIG_DFL) in the child: shim, no descriptor effect'),
+    Rw('libc::signal(libc::SIGTSTP, libc::SIG_DFL);', 'vx_sigtstp_default(Tracked(&mut sg));', required=False, rule='R8', why='signal disposition of the child: shim with a ghost record, no descriptor effect'),
+    Rw('libc::signal(libc::SIGQUIT, libc::SIG_DFL);', 'vx_sigquit_default(Tracked(&mut sg));', required=False, rule='R8'),
     Rw("text.push('\\n');", 'vx_push_nl(&mut text);', required=False, rule='R12'),
     Rw('text.as_bytes()', 'vx_as_bytes(&text)', required=False, rule='R12'),
+    Rw('f.write_all(', 'f.write_here_string(', required=False, rule='R8', why='the one write of run_single_program is the here-string: shim with the content clause'),
     Rw(r'Err\(ref e\) if e\.kind\(\) == std::io::ErrorKind::BrokenPipe => \{\}', '', regex=True, required=False, rule='R10', why='EPIPE arm of the here-string write: same (empty) effect as the general arm for the descriptor model'),
     Rw('drop(f);', '', required=False, rule='R9', why='explicit drop of the File: modelled by R9 at the end of the enclosing block (same descriptor effect)'),
     Rw(r'if cfg!\(target_os = "macos"\) \{', '', regex=True, balanced=True, rule='R10', why='macOS-only busy wait on getpgid (cfg! is false on this platform): dropped'),
     Rw('let c_args: Vec<_> = cmd\\s*(?:/\\*@L\\d+\\*/)?\\s*\\.tokens\\s*(?:/\\*@L\\d+\\*/)?\\s*\\.iter\\(\\)\\s*(?:/\\*@L\\d+\\*/)?\\s*\\.map\\(\\|x\\| CString::new\\(x\\.1\\.as_str\\(\\)\\)\\.expect\\("CString error"\\)\\)\\s*(?:/\\*@L\\d+\\*/)?\\s*\\.collect\\(\\);', 'VXARGV_OK;', regex=True, required=False, rule='R12',
        why='argv idiom: cmd.tokens.iter().map(|x| CString::new(x.1.as_str())..).collect() has the std contract argv == token texts in order; any other construction is opaque'),
     Rw(r'let mut c_envs: Vec<_> = env::vars\(\)[\s\S]*?VXARGV_OK;[\s\S]*?match execve\(&c_program, &c_args, &c_envs\) \{',
-       'proof { chk_argv(true); } proof { lemma_lits(); if !has_amp(cmd.redirects_to@) { lemma_files_vs_redirs(base_out(idx_cmd as int, pipes_count as int, w.pobj, options.capture_output, w.cap_out), base_err(idx_cmd as int, pipes_count as int, options.capture_output, w.cap_err), Obj::Inherited(1), Obj::Inherited(2), cmd.redirects_to@, cmd.redirects_to@.len() as int); } } proof { chk_exec_only_0_1_2_open(*k); } proof { chk_stdin(*k, *cmd, idx_cmd as int, w); } proof { chk_stdout(*k, *cmd, idx_cmd as int, pipes_count as int, w, options.capture_output); } proof { chk_stderr(*k, *cmd, idx_cmd as int, pipes_count as int, w, options.capture_output); } proof { chk_stdout_carved(*k, *cmd, idx_cmd as int, pipes_count as int, w, options.capture_output); } proof { chk_stderr_carved(*k, *cmd, idx_cmd as int, pipes_count as int, w, options.capture_output); } vx_execve_region(cl, cmd, Tracked(k));', regex=True, balanced=True, required=False, rule='R10',
+       'proof { chk_argv(true); } proof { lemma_lits(); if !has_amp(cmd.redirects_to@) { lemma_files_vs_redirs(base_out(idx_cmd as int, pipes_count as int, w.pobj, options.capture_output, w.cap_out), base_err(idx_cmd as int, pipes_count as int, options.capture_output, w.cap_err), Obj::Inherited(1), Obj::Inherited(2), cmd.redirects_to@, cmd.redirects_to@.len() as int); } } proof { chk_exec_only_0_1_2_open(*k); } proof { chk_stdin(*k, *cmd, idx_cmd as int, w); } proof { chk_stdout(*k, *cmd, idx_cmd as int, pipes_count as int, w, options.capture_output); } proof { chk_stderr(*k, *cmd, idx_cmd as int, pipes_count as int, w, options.capture_output); } proof { chk_stdout_carved(*k, *cmd, idx_cmd as int, pipes_count as int, w, options.capture_output); } proof { chk_stderr_carved(*k, *cmd, idx_cmd as int, pipes_count as int, w, options.capture_output); } proof { chk_job_signals_default(sg); } vx_execve_region(cl, cmd, Tracked(k));', regex=True, balanced=True, required=False, rule='R10',
        why='argv/envp CString construction (argv by the known idiom), PATH lookup (exit 127 when not found) and execve: one opaque region; its REQUIRES carry the C02/C04/C08 descriptor state'),
     Rw(r'let mut c_envs: Vec<_> = env::vars\(\)[\s\S]*?match execve\(&c_program, &c_args, &c_envs\) \{',
-       'proof { chk_argv(false); } proof { lemma_lits(); if !has_amp(cmd.redirects_to@) { lemma_files_vs_redirs(base_out(idx_cmd as int, pipes_count as int, w.pobj, options.capture_output, w.cap_out), base_err(idx_cmd as int, pipes_count as int, options.capture_output, w.cap_err), Obj::Inherited(1), Obj::Inherited(2), cmd.redirects_to@, cmd.redirects_to@.len() as int); } } proof { chk_exec_only_0_1_2_open(*k); } proof { chk_stdin(*k, *cmd, idx_cmd as int, w); } proof { chk_stdout(*k, *cmd, idx_cmd as int, pipes_count as int, w, options.capture_output); } proof { chk_stderr(*k, *cmd, idx_cmd as int, pipes_count as int, w, options.capture_output); } proof { chk_stdout_carved(*k, *cmd, idx_cmd as int, pipes_count as int, w, options.capture_output); } proof { chk_stderr_carved(*k, *cmd, idx_cmd as int, pipes_count as int, w, options.capture_output); } vx_execve_region(cl, cmd, Tracked(k));', regex=True, balanced=True, required=False, rule='R10',
+       'proof { chk_argv(false); } proof { lemma_lits(); if !has_amp(cmd.redirects_to@) { lemma_files_vs_redirs(base_out(idx_cmd as int, pipes_count as int, w.pobj, options.capture_output, w.cap_out), base_err(idx_cmd as int, pipes_count as int, options.capture_output, w.cap_err), Obj::Inherited(1), Obj::Inherited(2), cmd.redirects_to@, cmd.redirects_to@.len() as int); } } proof { chk_exec_only_0_1_2_open(*k); } proof { chk_stdin(*k, *cmd, idx_cmd as int, w); } proof { chk_stdout(*k, *cmd, idx_cmd as int, pipes_count as int, w, options.capture_output); } proof { chk_stderr(*k, *cmd, idx_cmd as int, pipes_count as int, w, options.capture_output); } proof { chk_stdout_carved(*k, *cmd, idx_cmd as int, pipes_count as int, w, options.capture_output); } proof { chk_stderr_carved(*k, *cmd, idx_cmd as int, pipes_count as int, w, options.capture_output); } proof { chk_job_signals_default(sg); } vx_execve_region(cl, cmd, Tracked(k));', regex=True, balanced=True, required=False, rule='R10',
        why='as above, but argv is NOT built by the known idiom: its content is unknown'),
     Rw('vx_execve_region(cl, cmd, Tracked(k));', 'vx_execve_region(cl, cmd, Tracked(k));', rule='R10', why='(anchor check: the exec region must have been found)'),
     Rw(r'\bunsafe\s*\{', '{', regex=True, required=False, rule='R14', why='unsafe marker removed; the operations inside are shims'),
@@ -538,7 +559,7 @@ release_stage_fds = Fn(C, 'release_stage_fds',
 
 run_single_program = Fn(C, 'run_single_program', ret='r', pre_rewrites=RSP_RW, file_drops=True,
     add_params='Ghost(w): Ghost<Wiring>, Tracked(k): Tracked<&mut Kernel>',
-    ghost_args={'pipe': 'Tracked(k)', 'close': 'Tracked(k)', 'dup': 'Tracked(k)', 'dup2': 'Tracked(k)', 'fork': 'Tracked(k)', 'release_stage_fds': 'Tracked(k)',
+    ghost_args={'pipe': 'Tracked(k)', 'close': 'Tracked(k)', 'dup': 'Tracked(k)', 'dup2': 'Tracked(k)', 'fork': 'Tracked(k)', 'release_stage_fds': 'Tracked(k)', 'write_here_string': 'Ghost(redirect_from.1@)',
                 'create_raw_fd_from_file': 'Tracked(k)', 'get_fd_from_file': 'Tracked(k)', 'vx_setpgid': 'Tracked(k)',
                 'give_terminal_to': 'Tracked(k)', 'vx_file_from_raw_fd': 'Tracked(k)'},
     let_types={'fds_stdin': 'Option<(RawFd, RawFd)>'},
@@ -586,6 +607,7 @@ run_single_program = Fn(C, 'run_single_program', ret='r', pre_rewrites=RSP_RW, f
     hints={
         'fn-entry': 'RAW: let tracked mut sg = new_siglog();',
         'before-call:fork': 'RAW: let ghost f0 = old(k).fds; let ghost f1 = k.fds; proof { chk_sigpipe_default(sg); }',
+        'before-call:try_run_builtin_in_subprocess': 'chk_job_signals_default(sg);',
         'before-text:// (in parent) close unused pipe ends': 'LABEL:C02+C08.rsp.the_shell_has_the_default_sigpipe_action_back_after_the_here_string: assert(!sg.ignored);',
         'before-call:has_redirect_from': 'lemma_lits();',
         'hdr:&cmd.redirects_to|body-entry': 'lemma_lits();',
@@ -686,4 +708,10 @@ UNIT = Unit('U-FD', TEMPLATE, fns=[Fn('src/types.rs', 'new', impl='CommandResult
             types=[TypeItem('src/types.rs', 'struct', 'Command'), TypeItem('src/types.rs', 'struct', 'CommandLine'),
                    TypeItem('src/types.rs', 'struct', 'CommandResult'), TypeItem('src/types.rs', 'struct', 'CommandOptions')],
             props=('C02', 'C04', 'C08', 'C07', 'C05'))
-TRUSTED = common.TRUSTED_STR + []
+TRUSTED = common.TRUSTED_STR + [
+    'the kernel calls pipe / dup / dup2 / close / fork / setpgid / getpid / waitpid are shims over a ghost descriptor table and process table with their POSIX contracts (lowest free descriptor, '
+    'a child gets a copy of the table, close-on-exec not modelled because no descriptor of the shell carries it)',
+    'the shell itself ignores SIGTSTP and SIGQUIT and has the default SIGPIPE action (main.rs, outside the verifier): the ghost SigLog starts from that; signal() succeeds',
+    'the exec region (argv / envp construction, PATH lookup, execve) is one opaque shim whose REQUIRES carry the descriptor, process-group and signal state; the bytes of a text (str::as_bytes) are uninterpreted',
+    'Write::write_all writes what it is given or reports an error; reading the capture pipes (read_to_string) is opaque',
+]
